@@ -390,12 +390,42 @@ def check_eval(run, s, so, day, rng, every_minute):
 GUARD = {"calls": 0, "at": None}
 
 
-def timer_run(run, s, start_day, ndays, rng, with_app):
-    """a LocalScheduleObject driven by its own timer under the virtual clock"""
+def set_zone(zone):
+    import os
+    import time
+    os.environ["TZ"] = zone
+    time.tzset()
+
+
+def local_epoch(day, h=0, m=0, sec=0):
+    """epoch seconds of a wall-clock time of the process' time zone (UTC unless a run says otherwise)"""
+    import time
+    return int(time.mktime((day.year, day.month, day.day, h, m, sec, 0, 0, -1)))
+
+
+def local_wall(T):
+    import time
+    lt = time.localtime(T)
+    return datetime.date(lt.tm_year, lt.tm_mon, lt.tm_mday), (lt.tm_hour, lt.tm_min, lt.tm_sec, 0)
+
+
+def timer_run(run, s, start_day, ndays, rng, with_app, zone=None):
+    """a LocalScheduleObject driven by its own timer under the virtual clock.  zone: run in this time zone (one with daylight
+    saving time, on days away from the switches): the schedule is written in local wall-clock time"""
+    if zone:
+        set_zone(zone)
+    try:
+        return _timer_run(run, s, start_day, ndays, rng, with_app, zone)
+    finally:
+        if zone:
+            set_zone("UTC")
+
+
+def _timer_run(run, s, start_day, ndays, rng, with_app, zone):
     CLK.reset()
-    t0 = calendar.timegm(start_day.timetuple()) + rng.choice([0, 1, 3600 * 5 + 17, 86399])
+    t0 = local_epoch(start_day) + rng.choice([0, 1, 3600 * 5 + 17, 86399])
     CLK.now = float(t0)
-    wit = {"schedule": s.describe(), "start": str(start_day), "days": ndays, "with_app": bool(with_app)}
+    wit = {"schedule": s.describe(), "start": str(start_day), "days": ndays, "with_app": bool(with_app), "time_zone": zone or "UTC"}
     try:
         so, app = build(s, with_app)
     except Exception as err:
@@ -408,30 +438,75 @@ def timer_run(run, s, start_day, ndays, rng, with_app):
     # probe instants: 7-minute grid + every listed time +-1 s on every day
     probes = set(range(int(t0) + 1, int(end), 420))
     lists = [ex["tv"] for ex in s.exceptions] + (s.weekly or [])
-    day0 = calendar.timegm(start_day.timetuple())
     for dd in range(ndays + 1):
+        day = start_day + datetime.timedelta(days=dd)
+        day0 = local_epoch(day)
         for lst in lists:
             for tv, _ in lst:
-                x = day0 + dd * 86400 + tv[0] * 3600 + tv[1] * 60 + tv[2]
+                x = local_epoch(day, tv[0], tv[1], tv[2])
                 for dlt in (-1, 0, 1):
                     if t0 < x + dlt < end:
                         probes.add(x + dlt)
-        for x in (day0 + dd * 86400 - 1, day0 + dd * 86400, day0 + dd * 86400 + 1):
+        for x in (day0 - 1, day0, day0 + 1):
             if t0 < x < end:
                 probes.add(x)
     seen_inside = False
-    for T in sorted(probes):
+    # the configuration is rewritten a few times while the schedule runs (one weekday's list through its array index, or the
+    # whole weekly schedule): what is shown follows the new configuration from that instant on
+    rewrites = {}
+    if s.weekly is not None and app is not None and rng.random() < 0.6:        # (an object outside an application is not re-evaluated on writes)
+        for T in rng.sample(sorted(probes), min(len(probes), rng.choice([1, 2, 4]))):
+            rewrites[T] = (rng.randrange(7), [(t, rng.choice([1, 2, 3, 4, 5, 6, 8, 9, None])) for t in rand_times(rng, rng.randrange(0, 5))],
+                           rng.random() < 0.3)
+    wit["rewrites"] = {}
+    import heapq
+    heap = sorted(probes)
+    heapq.heapify(heap)
+    done_T = set()
+    while heap:
+        T = heapq.heappop(heap)
+        if T in done_T:
+            continue
+        done_T.add(T)
         try:
             CLK.drive(until=float(T), max_steps=20000)
+            if T in rewrites:
+                wd, lst, whole = rewrites[T]
+                s.weekly[wd] = lst
+                wall_date, wall_time = local_wall(T)
+                wit["rewrites"]["%s %02d:%02d:%02d" % ((wall_date,) + wall_time[:3])] = {"weekday_index": wd, "list": lst, "whole_property": whole}
+                for dd in range(0, 8):
+                    day = wall_date + datetime.timedelta(days=dd)
+                    for tv, _v in lst:
+                        for d_ in (0, 1):
+                            extra = local_epoch(day, tv[0], tv[1], tv[2]) + d_
+                            if T < extra < end:
+                                heapq.heappush(heap, extra)
+                heapq.heappush(heap, T + 1)
+                if whole:
+                    so.WriteProperty("weeklySchedule", ArrayOf(DailySchedule)([
+                        DailySchedule(daySchedule=[TimeValue(time=tuple(tv), value=V(val)) for tv, val in day]) for day in s.weekly]), direct=True)
+                else:
+                    so.WriteProperty("weeklySchedule", DailySchedule(daySchedule=[TimeValue(time=tuple(tv), value=V(val)) for tv, val in lst]),
+                                     arrayIndex=wd + 1, direct=True)
+                run.count("schedule_rewrites_while_running")
+                continue
+
         except StepBudgetExceeded as err:
             run.violation("schedule-timer-spins", dict(wit, at=T, error=str(err)))
             return
         except LineBudgetExceeded as err:
             run.violation("schedule-timer-spins", dict(wit, at=T, error=str(err)))
             return
-        dt = datetime.datetime.fromtimestamp(T, datetime.timezone.utc)
-        want = ref_eval(s, dt.date(), (dt.hour, dt.minute, dt.second, 0))
+        except Exception as err:
+            run.violation("rewriting-a-running-schedule-raised/" + type(err).__name__, dict(wit, at=T, error=repr(err)[:120]))
+            return
+        wall_date, wall_time = local_wall(T)
+        dt = "%s %02d:%02d:%02d" % ((wall_date,) + wall_time[:3])
+        want = ref_eval(s, wall_date, wall_time)
         run.count("timer_probes")
+        if zone:
+            run.count("timer_probes_in_a_zone_with_daylight_saving_time")
         if want is None:
             continue
         seen_inside = True
@@ -449,7 +524,8 @@ def timer_run(run, s, start_day, ndays, rng, with_app):
 
 def main():
     run = Run("C20", "exploration", RULE, assumptions=[
-        "TZ=UTC; calendar/datetime (standard library) are the calendar reference",
+        "TZ=UTC for the evaluations; a fifth of the timer-driven runs switch the process to a zone with daylight saving time "
+        "(time.tzset) on days away from the switch dates; calendar/datetime/time (standard library) are the calendar reference",
         "outside the effective period no value is demanded, only that the interpreter keeps running and is right again inside",
         "time lists are strictly increasing, exception priorities distinct, all times have hundredths 0 (the timer has one-second resolution)",
         "a date range bound of all-255 means unbounded; partly wildcarded range bounds are not generated"])
@@ -525,12 +601,19 @@ def main():
             day = datetime.date(rng.choice([1999, 2024, 2026]), rng.randrange(1, 13), 1) + datetime.timedelta(days=rng.randrange(0, 28))
             if rng.random() < 0.2:
                 day = rng.choice([datetime.date(2024, 2, 28), datetime.date(2023, 12, 30), datetime.date(2024, 12, 31)])
+            zone = None
+            if i % 5 == 4:
+                # local time with daylight saving: a summer or a winter stretch away from the switch dates
+                zone = rng.choice(["EST5EDT,M3.2.0,M11.1.0", "CET-1CEST,M3.5.0,M10.5.0/3"])
+                day = datetime.date(rng.choice([1999, 2024, 2026]), rng.choice([1, 6, 7, 7, 8, 12]), rng.randrange(3, 20))
             s = rand_sched(rng, day)
             ndays = rng.choice([3, 3, 4, 10]) if thorough else rng.choice([2, 3, 4])
+            if zone:
+                ndays = min(ndays, 4)
             run.case(("timer", run.shard[0], i), sample={"schedule": s.describe(), "start": str(day), "days": ndays}, sample_key=("timer", i < 2))
             budget.arm(4000000)
             try:
-                timer_run(run, s, day, ndays, rng, with_app=None if i % 3 else True)
+                timer_run(run, s, day, ndays, rng, with_app=None if i % 3 else True, zone=zone)
             finally:
                 budget.disarm()
         budget.close()
